@@ -97,10 +97,32 @@ theorem startKind_parent {β : Type} (copied : List (String × String)) (k : Kin
   unfold startKind
   cases k <;> cases jc <;> simp only [startSubshell, runInChild_fst, if_true, Bool.false_eq_true, if_false]
 
-theorem finishKind_env (k : Kind) (out : Shell) (st : Nat) : (finishKind k out st).env = out.env := by
+theorem finishKind_env (k : Kind) (out : Shell) (st : Nat) (intr : Option Nat) :
+    (finishKind k out st intr).env = out.env := by
   unfold finishKind
   split
   · rfl
-  · split <;> rfl
+  · cases intr with
+    | some s => rfl
+    | none => simp only []; split <;> rfl
+
+theorem parentSide_sync (k : Kind) (env : Env) (hk : k ≠ .async) : parentSide k env [] = { env := env } := by
+  cases k <;> first | exact absurd rfl hk | rfl
+
+theorem interruptedBy_eq_none (k : Kind) (jc : Bool) (env : Env) (status : Nat)
+    (h : env.stack.contains "Subshell" = true ∨ env.options.contains "interactive" = false
+      ∨ sigintDefault env = false ∨ status ≠ 384 + SIGINT) :
+    interruptedBy k jc env status = none := by
+  unfold interruptedBy isInteractive
+  split
+  · rename_i hcond
+    simp only [Bool.and_eq_true, Bool.not_eq_true', beq_iff_eq] at hcond
+    obtain ⟨⟨⟨h1, _⟩, h3, h4⟩, h5⟩ := hcond
+    rcases h with h | h | h | h
+    · rw [h] at h4; cases h4
+    · rw [h] at h3; cases h3
+    · rw [h] at h5; cases h5
+    · exact absurd h1 h
+  · rfl
 
 end YashModel.Fork
